@@ -559,8 +559,8 @@ Lemma nth_error_lt {A} (l : list A) i x : nth_error l i = Some x -> i < length l
 Proof. intros H. apply nth_error_Some. congruence. Qed.
 
 (* one pop / deepcopy / restore round on the dict at l, no fault *)
-Lemma pop_copy_restore_ok fin n h l h' oc :
-  pop_copy_restore fin false n h l = (h', oc, None) ->
+Lemma pop_copy_restore_ok fin n h l h' cj :
+  pop_copy_restore fin false n h l = (h', POk cj) ->
   exists kv v,
     nth_error h l = Some (CDict kv) /\ assoc k_data kv = Some v /\
     nth_error h' l = Some (CDict (remove_key k_data kv ++ [(k_data, v)])) /\
@@ -571,9 +571,9 @@ Proof.
   destruct (nth_error h l) as [[vs|kv]|] eqn:Ec; try (inversion H; fail).
   destruct (assoc k_data kv) as [v|] eqn:Ea; [|inversion H].
   set (h1 := upd h l (CDict (remove_key k_data kv))) in *.
-  destruct (deepcopy n h1 (VRef l)) as [[h2 cj]|e] eqn:Ed.
+  destruct (deepcopy n h1 (VRef l)) as [[h2 cj']|e] eqn:Ed.
   2:{ destruct fin; [destruct (dict_set h1 l k_data v)|]; inversion H. }
-  destruct (deepcopy_fresh (length h1) n h1 (VRef l) h2 cj (le_n _) Ed) as [X _].
+  destruct (deepcopy_fresh (length h1) n h1 (VRef l) h2 cj' (le_n _) Ed) as [X _].
   pose proof (nth_error_lt _ _ _ Ec) as Hl.
   assert (L1 : length h1 = length h) by apply length_upd.
   assert (C1 : nth_error h1 l = Some (CDict (remove_key k_data kv))) by (eapply nth_error_upd_same; eauto).
@@ -588,8 +588,8 @@ Proof.
     rewrite (gext_old _ _ _ _ X) by lia. apply nth_error_upd_other. exact Hne.
 Qed.
 
-Lemma pop_copy_restore_equiv fin n h l h' oc :
-  pop_copy_restore fin false n h l = (h', oc, None) -> heap_equiv h h' /\ length h <= length h'.
+Lemma pop_copy_restore_equiv fin n h l h' cj :
+  pop_copy_restore fin false n h l = (h', POk cj) -> heap_equiv h h' /\ length h <= length h'.
 Proof.
   intros H. destruct (pop_copy_restore_ok _ _ _ _ _ _ H) as [kv [v [Hc [Ha [Hc' [Hlen Hother]]]]]].
   split; auto. intros l0 c Hl0. destruct (Nat.eq_dec l0 l) as [->|Hne].
@@ -603,12 +603,12 @@ Qed.
 
 Lemma dso_no_fault_inv fin n h a b h' :
   dso fin None n h a b = (h', Returned) ->
-  exists h1 oc1 oc2, pop_copy_restore fin false n h a = (h1, oc1, None) /\
-                     pop_copy_restore fin false n h1 b = (h', oc2, None).
+  exists h1 oc1 oc2, pop_copy_restore fin false n h a = (h1, POk oc1) /\
+                     pop_copy_restore fin false n h1 b = (h', POk oc2).
 Proof.
   unfold dso. intros H.
-  destruct (pop_copy_restore fin false n h a) as [[h1 oc1] [e1|]] eqn:E1; [inversion H|].
-  destruct (pop_copy_restore fin false n h1 b) as [[h2 oc2] [e2|]] eqn:E2; [inversion H|].
+  destruct (pop_copy_restore fin false n h a) as [h1 [oc1| |e1]] eqn:E1; try (inversion H; fail).
+  destruct (pop_copy_restore fin false n h1 b) as [h2 [oc2| |e2]] eqn:E2; try (inversion H; fail).
   inversion H; subst. eauto.
 Qed.
 
@@ -907,3 +907,37 @@ Example apply_hypotheses_satisfiable :
                                        (of_ascii "m"%string, JObj [(of_ascii "y"%string, JArr [JObj []]); (of_ascii "x"%string, JArr [])])]) /\
                read 6 h' base = read 6 h2 base.
 Proof. vm_compute. do 2 eexists. repeat split; reflexivity. Qed.
+
+(* ------------------------------------------------------------------ statements parametrised by the source facts *)
+Lemma dso_fault_hazard fin :
+  fin = false ->
+  exists h h' va vb,
+    run_dso fin (Some 0) (wit_output (of_ascii "x"%string)) (wit_output (of_ascii "y"%string)) = Some (h, h', Raised 0, va, vb) /\
+    cread 6 h' va <> cread 6 h va.
+Proof. intros ->. exact dso_fault_loses_data. Qed.
+
+Definition shares_diff_value (cfg : pcfg) : Prop :=
+  exists h' r l v,
+    patch_s cfg 3 wit_h (VRef 0) wit_d = Ok (h', r) /\
+    reach h' r l /\ In v (dvalues wit_d) /\ reach h' v l /\
+    (exists h'', store_item h' r (KI 0) (VRef l) = Ok h'' /\ True) /\
+    read 5 (upd h' l (CList [VAtom JNull])) v <> read 5 h' v.
+
+Definition disjoint_from_diff (cfg : pcfg) : Prop :=
+  forall n h obj d h' r,
+    (forall v, In v (dvalues d) -> closed_in h v) ->
+    patch_s cfg n h obj d = Ok (h', r) ->
+    forall l, reach h' r l -> forall v, In v (dvalues d) -> ~ reach h' v l.
+
+(* whichever way the source goes, the aliasing clause is decided *)
+Lemma patch_diff_aliasing_by_source cfg :
+  copy_untouched cfg = true ->
+  (copy_diffvals cfg = true /\ disjoint_from_diff cfg) \/ (copy_diffvals cfg = false /\ shares_diff_value cfg).
+Proof.
+  intros Hcu. destruct (copy_diffvals cfg) eqn:E.
+  - left. split; auto. intros n h obj d h' r Hcl H. eapply patch_result_disjoint_from_diff_gen; eauto.
+  - right. split; auto. apply patch_result_shares_diff_value. exact E.
+Qed.
+
+Definition wit_oa : json := wit_output (of_ascii "x"%string).
+Definition wit_ob : json := wit_output (of_ascii "y"%string).
